@@ -4,11 +4,16 @@
    hold), and such a cancellation only when the caller had cancelled that very operation (C09_cancellation_only_by_caller, by the
    invariant that ties every awaited call to the one task that awaits it); classification of every exit of start_connection, of the error wrapper and of what waiters receive; the first
    fatal cause is kept and is what every pending waiter gets; awaits are entered with their timers armed at the documented
-   bounds and virtual time cannot pass an armed deadline.  PARTIAL in one named respect: the composition
-   "hence every awaited operation is complete by start + bound" is not proved as one theorem about runs; it is
-   checked on the implementation (completion times under the virtual clock, deadlock detector) on every run. *)
+   bounds and virtual time cannot pass an armed deadline; and NO AWAIT IS UNGUARDED: in every reachable state every suspended
+   coroutine of the connection can be resumed now, or waits under an armed deadline (which time cannot pass and whose firing
+   makes it resumable), or waits for the transport's own connection_made call (C09_no_unguarded_await, C09_ready_task_resumes,
+   C09_reached_deadline_fires, C09_connection_made_arrives; Proofs/ConnGuard.v, all 35 labels), and every armed deadline lies
+   within its documented bound of the present (C09_phase_deadlines_bounded, C09_call_timers_exact).  PARTIAL in one named respect:
+   the numeric composition "hence start_connection is over by start + RESOLVE_TIMEOUT + groups * TCP_CONNECT_TIMEOUT" etc. is
+   not one theorem about runs (the model has no fairness assumption: that a resumable task IS resumed is asyncio's part);
+   completion times are checked on the implementation under the virtual clock on every run. *)
 From Coq Require Import NArith ZArith List Bool.
-From Verif Require Import Generated.GenConstants Model.Conn Proofs.ConnCalls Proofs.ConnErrors Proofs.ConnHello Proofs.ConnOutcome Proofs.ConnCancel.
+From Verif Require Import Generated.GenConstants Model.Conn Proofs.ConnCalls Proofs.ConnErrors Proofs.ConnHello Proofs.ConnOutcome Proofs.ConnCancel Proofs.ConnGuard Proofs.ConnLeak Proofs.ConnBound.
 Import ListNotations.
 Open Scope Z_scope.
 
@@ -130,4 +135,54 @@ Proof. exact awaited_call_owned. Qed.
 Example C09_cancelled_flag :
   option_map (fun r => user_cancelled (get_task (fst r) (TCall 1)))
     (run (init false false 20480 []) (connect9 ++ [LCallStart [T_PING_REQ] [T_PING_RESP] PAny PAny 1024; LCancel (TCall 1)])) = Some true.
+Proof. vm_compute. reflexivity. Qed.
+
+(* ---- no await is unguarded (bounded time, the part that is logic) *)
+(* ready_now c t: the wake-up guard of task t holds; deadline_of c t: the timer standing behind what t awaits *)
+Theorem C09_no_unguarded_await : forall n e ka scr ls c os t,
+  run (init n e ka scr) ls = Some (c, os) -> task_running (get_task c t) = true ->
+  ready_now c t \/ (exists d, deadline_of c t = Some d /\ In d (armed_deadlines c)) \/
+  (t = TFinish /\ pc (get_task c t) = PF_Create /\ made_waiter c = EPending).
+Proof. exact no_unguarded_await. Qed.
+Theorem C09_ready_task_resumes : forall n e ka scr ls c os t,
+  run (init n e ka scr) ls = Some (c, os) -> task_running (get_task c t) = true -> ready_now c t -> step c (LWake t) <> None.
+Proof. exact ready_task_resumes. Qed.
+Theorem C09_reached_deadline_fires : forall n e ka scr ls c os t d,
+  run (init n e ka scr) ls = Some (c, os) -> task_running (get_task c t) = true -> deadline_of c t = Some d -> d <= now c ->
+  exists k c' o, step c (LTimer k) = Some (c', o) /\ ready_now c' t.
+Proof. exact reached_deadline_fires. Qed.
+Theorem C09_connection_made_arrives : forall c, pc (t_finish c) = PF_Create -> made_waiter c = EPending ->
+  exists c', step c LMadeWaiter = Some (c', []) /\ ready_now c' TFinish.
+Proof. exact made_waiter_arrives. Qed.
+(* the typing half of the invariant: a coroutine is only ever at one of its own program points *)
+Theorem C09_every_await_guarded : forall n e ka scr ls c os t, run (init n e ka scr) ls = Some (c, os) -> tguard c t.
+Proof. exact every_await_guarded. Qed.
+
+(* every armed deadline is within its documented bound of the present: the two connect phases and disconnect()'s wait ... *)
+Theorem C09_phase_deadlines_bounded : forall n e ka scr ls c os,
+  run (init n e ka scr) ls = Some (c, os) ->
+  (forall d, conn_timer c = Some d -> d <= now c + Z.max RESOLVE_TIMEOUT TCP_CONNECT_TIMEOUT) /\
+  (forall d, hs_timer c = Some d -> d <= now c + HANDSHAKE_TIMEOUT) /\
+  (forall d, disc_timer c = Some d -> d <= now c + DISCONNECT_CONNECT_TIMEOUT).
+Proof. exact phase_deadlines_bounded. Qed.
+(* ... and a call's timer is exactly the time its request was written plus its time-out, written no later than now *)
+Theorem C09_call_timers_exact : forall n e ka scr ls c os k d,
+  run (init n e ka scr) ls = Some (c, os) -> In k (calls c) -> c_timer k = Some d ->
+  d = c_sent_at k + c_timeout k /\ c_sent_at k <= now c.
+Proof. exact call_timers_exact. Qed.
+
+(* non-vacuity: the deadline behind each await of a plain session (resolve, TCP, handshake, hello, a user call, disconnect) *)
+Definition deadline9 (ls : list label) (t : tid) := option_map (fun r => deadline_of (fst r) t) (run (init false false 20480 []) ls).
+Example C09_deadline_resolve : deadline9 [LStart] TStart = Some (Some RESOLVE_TIMEOUT).
+Proof. vm_compute. reflexivity. Qed.
+Example C09_deadline_tcp : deadline9 [LStart; LResolveDone None 1; LWake TStart] TStart = Some (Some TCP_CONNECT_TIMEOUT).
+Proof. vm_compute. reflexivity. Qed.
+Example C09_deadline_handshake :
+  deadline9 [LStart; LResolveDone None 1; LWake TStart; LTcpDone None; LWake TStart; LIntr true; LFinish false; LMadeWaiter; LWake TFinish] TFinish
+  = Some (Some HANDSHAKE_TIMEOUT).
+Proof. vm_compute. reflexivity. Qed.
+Example C09_deadline_call :
+  deadline9 (connect9 ++ [LAdvance 100; LCallStart [T_PING_REQ] [T_PING_RESP] PAny PAny 1024]) (TCall 1) = Some (Some 1124).
+Proof. vm_compute. reflexivity. Qed.
+Example C09_deadline_disconnect : deadline9 (connect9 ++ [LDisconnect]) TDisc = Some (Some DISCONNECT_RESPONSE_TIMEOUT).
 Proof. vm_compute. reflexivity. Qed.
